@@ -4,6 +4,7 @@ package pubsubp
 import (
 	"context"
 	"encoding/binary"
+	"github.com/aperturerobotics/bifrost/crypto"
 	"io"
 	"net"
 	"os"
@@ -278,6 +279,13 @@ func mkPub(kind string, from, other int, ch, otherCh string, data []byte) *peer.
 		m := build(from, ch, ch)
 		o := build(other, ch, ch)
 		m.Signature = o.Signature
+		return m
+	case "other-signer-with-key":
+		// signed by `other`, claims `from`, and carries `other`'s public key in the signature object
+		m := build(from, ch, ch)
+		o := build(other, ch, ch)
+		m.Signature = o.Signature.CloneVT()
+		m.Signature.PubKey, _ = crypto.MarshalPublicKey(gen.Key(other).GetPublic())
 		return m
 	case "wrong-context":
 		inner := &pubmessage.PubMessageInner{Data: data, Channel: ch}
